@@ -79,16 +79,12 @@ fn check_reg(rep: &mut Report, case: &Value, out: &RegOut, challenge: &[u8; 32],
         rep.violate("registration response carries a different key handle", String::new(), case.clone());
     }
     let rp = oracle::b64url(app);
-    let rec = stored.iter().find(|c| c.id == handle && c.rp_id == rp);
-    match rec {
-        None => rep.violate("no credential stored for (base64url(application), key handle)", format!("store holds {:?}", stored.iter().map(|c| (c.rp_id.clone(), hex_short(&c.id))).collect::<Vec<_>>()), case.clone()),
-        Some(r) => {
-            if let Some(d) = &r.d {
-                if let Err(e) = oracle::scalar_matches_point(d, &out.x, &out.y) {
-                    rep.violate("stored U2F credential's private key does not match the returned public key", e, case.clone());
-                }
-            }
-        }
+    // (a journal-like store may hold earlier generations of the key handle next to the new record)
+    let recs: Vec<&CredSnap> = stored.iter().filter(|c| c.id == handle && c.rp_id == rp).collect();
+    if recs.is_empty() {
+        rep.violate("no credential stored for (base64url(application), key handle)", format!("store holds {:?}", stored.iter().map(|c| (c.rp_id.clone(), hex_short(&c.id))).collect::<Vec<_>>()), case.clone());
+    } else if !recs.iter().any(|r| r.d.as_ref().map_or(true, |d| oracle::scalar_matches_point(d, &out.x, &out.y).is_ok())) {
+        rep.violate("stored U2F credential's private key does not match the returned public key", format!("{} record(s) for the key handle, none holds the returned key", recs.len()), case.clone());
     }
     // raw encoding
     let mut want = vec![0x05, 0x04];
@@ -125,6 +121,13 @@ fn check_auth(rep: &mut Report, case: &Value, out: &AuthOut, x: &[u8], y: &[u8],
     }
 }
 
+thread_local! {
+    /// Reference-store histories only: Some(true) - a key handle registered again is answered with its newest
+    /// generation first (a journal listed newest first, or a store that replaces per account); Some(false) -
+    /// oldest first. The library documents that the first credential a lookup lists is the one used.
+    static REC_GENERATIONS: std::cell::Cell<Option<bool>> = const { std::cell::Cell::new(None) };
+}
+
 fn history<S: CredentialStore<PasskeyItem = Passkey> + Sync + Send>(rep: &mut Report, seed: u64, idx: u64, kind: StoreKind, auth: &mut Authenticator<S, RecUv>, snapshot: &dyn Fn(&Authenticator<S, RecUv>) -> Vec<CredSnap>) {
     let mut rng = Rng::derive(seed, "c17", idx);
     let n_reg = if kind == StoreKind::Single { rng.range(1, 2) } else { rng.range(1, 4) };
@@ -136,7 +139,8 @@ fn history<S: CredentialStore<PasskeyItem = Passkey> + Sync + Send>(rep: &mut Re
         let hl = *rng.pick(&[0usize, 1, 16, 32, 64, 127, 128, 200, 255]);
         let mut handle = rng.bytes(hl);
         let mut app = app;
-        if kind != StoreKind::Rec && !regs.is_empty() && rng.chance(1, 3) {
+        let generations = REC_GENERATIONS.with(|g| g.get());
+        if (kind != StoreKind::Rec || generations.is_some()) && !regs.is_empty() && rng.chance(1, 3) {
             // register the same application / key handle again
             let (a, h, _, _) = regs[rng.below(regs.len())].clone();
             app = a;
@@ -160,7 +164,7 @@ fn history<S: CredentialStore<PasskeyItem = Passkey> + Sync + Send>(rep: &mut Re
         // (HashMap insert / Option replace), so the new key must be the stored one; for the reference
         // store the outcome of saving a duplicate is not defined by the contract, so it is not generated
         let same_pair = regs.iter().any(|(a, h, _, _)| *a == app && *h == handle);
-        if handle_reused || (same_pair && kind == StoreKind::Rec) {
+        if handle_reused || (same_pair && kind == StoreKind::Rec && generations.is_none()) {
             // the same (application, key handle) registered twice: which credential answers is not
             // settled by the statement, so such histories are not generated
             continue;
@@ -175,6 +179,14 @@ fn history<S: CredentialStore<PasskeyItem = Passkey> + Sync + Send>(rep: &mut Re
                 rep.count("registrations");
                 rep.nontrivial(fnv(format!("reg|{hl}|{kind:?}|{r}").as_bytes()));
                 rep.sample_class(&format!("register/{kind:?}"), json!({"case": case, "encoded_len": out.encoded.len(), "signature_len": out.sig.len()}));
+                if kind == StoreKind::Rec && same_pair && generations == Some(false) {
+                    // the store lists the oldest generation first: that one keeps answering
+                    rep.count("key_handle_generations_oldest_first");
+                    continue;
+                }
+                if kind == StoreKind::Rec && same_pair {
+                    rep.count("key_handle_generations_newest_first");
+                }
                 regs.retain(|(a, h, _, _)| !(*a == app && *h == handle));
                 if kind == StoreKind::Single {
                     // the single-slot store keeps one credential by design
@@ -375,9 +387,19 @@ pub fn run(args: &Args) -> Report {
         let kind = [StoreKind::Rec, StoreKind::Memory, StoreKind::Single][(i % 3) as usize];
         match kind {
             StoreKind::Rec => {
-                let rig = Rig::ok(Disc::Full);
+                // whatever the store advertises about discoverable credentials: a U2F credential is not one
+                let rig = Rig::ok([Disc::Full, Disc::OnlyNonDiscoverable, Disc::Forced, Disc::Full][((i / 3) % 4) as usize]);
                 // half of the reference stores keep one credential per (RP ID, account), as CTAP2 prescribes
                 rig.store.set_one_per_account(i % 6 < 3);
+                // a third of the histories register key handles again; the store then holds generations of them,
+                // listed newest first or oldest first
+                if i % 9 < 3 {
+                    let newest_first = i % 2 == 0;
+                    rig.store.set_newest_first(newest_first);
+                    REC_GENERATIONS.with(|g| g.set(Some(newest_first || i % 6 < 3)));
+                } else {
+                    REC_GENERATIONS.with(|g| g.set(None));
+                }
                 let mut a = rig.auth(AuthCfg::default());
                 // every fourth history starts with a registration the store refuses (any status byte,
                 // CTAP1- or CTAP2-class): no key and signature may be handed out for it
